@@ -117,7 +117,7 @@ func c14Open(v *verifFS, content []byte, mode int) (afero.File, *refFile, bool) 
 	return h, ref, err == nil
 }
 
-const c14Kinds = 6
+const c14Kinds = 7
 
 // c14Step performs one symbolic handle call on both and compares the results.
 func c14Step(h afero.File, ref *refFile, tag string) {
@@ -196,6 +196,9 @@ func c14Step(h afero.File, ref *refFile, tag string) {
 		err := h.Truncate(n)
 		ok := ref.doTruncate(n)
 		vm.Assert("C14.truncate_success_like_reference", (err == nil) == ok)
+	case 6: // Sync: flushes what was written; the handle, its content and its offset stay as they are
+		err := h.Sync()
+		vm.Assert("C14.sync_ok", err == nil)
 	case 5: // Stat
 		st, err := h.Stat()
 		vm.Assert("C14.stat_ok", err == nil)
